@@ -36,6 +36,7 @@ structure Ctx where
   suppressed : Bool := false
 deriving Repr
 
+def LMode.isCode (m : LMode) : Bool := m == .code || m == .codeCont
 def Ctx.withMode (c : Ctx) (m : LMode) : Ctx := { c with mode := m }
 def Ctx.withModeIf (c : Ctx) (m : LMode) (b : Bool) : Ctx := if b then { c with mode := m } else c
 def Ctx.suppress (c : Ctx) : Ctx := { c with suppressed := true }
@@ -132,6 +133,12 @@ def enter (k : Entry) (id : Nat) : M Unit :=
     · cases h⟩
 
 def Env.tok (e : Env) (s : String) : Twin.Doc := Twin.mkText e.wd .tok s
+/-- Text of a markup `Text`, shorthand or smart quote leaf. -/
+def Env.prose (e : Env) (s : String) : Twin.Doc := Twin.mkText e.wd .prose s
+/-- Text of a literal leaf (string, number, identifier, raw text …). -/
+def Env.lit (e : Env) (s : String) : Twin.Doc := Twin.mkText e.wd .lit s
+/-- Text of a literal leaf that is also prose (escape, link, label, reference target). -/
+def Env.plit (e : Env) (s : String) : Twin.Doc := Twin.mkText e.wd .plit s
 def Env.syn (e : Env) (s : String) : Twin.Doc := Twin.mkText e.wd .syn s
 def Env.soft (e : Env) (s : String) : Twin.Doc := Twin.mkText e.wd .soft s
 /-- One line of a comment, as a plain document (comments never contain indentation steps). -/
